@@ -270,7 +270,7 @@ def replay_case(case: dict, variant: int, mode: str) -> dict:
     walk(mod, 0)
 
     def exp_path(m):
-        return info[m["l"]]["path"] if m["k"] == "alias" else []
+        return _path_of(info[m["l"]], m["n"]) if m["k"] == "alias" else []
 
     if case["wf"]:
         core_real = {(m["s"], m["n"], m["l"], m["k"], tuple(m["p"])) for m in real.values()}
@@ -301,7 +301,7 @@ def replay_case(case: dict, variant: int, mode: str) -> dict:
                 rimps.add((sc, nm, tuple(path.split("."))))
         want_imps = set()
         for im in case["rimps"]:
-            want_imps.add((im["s"], im["n"], tuple(info[im["l"]]["path"])))
+            want_imps.add((im["s"], im["n"], tuple(_path_of(info[im["l"]], im["n"]))))
         if rimps != want_imps:
             extra = rimps - want_imps
             cause = "init-local" if "init-local" in hz and not (want_imps - rimps) and all(_under_init(e[0], info, prog) or info.get(e[0], {}).get("k") == "init" for e in extra) else "none"
@@ -382,6 +382,11 @@ def replay_case(case: dict, variant: int, mode: str) -> dict:
     _check_doc(viol, mod, r.module_doc, "module", lines, {"kind": "module"})
     out["summary"] = {"prog": prog, "mode": mode, "variant": variant, "members": sorted(f"{k[0]}:{k[1]}:{v['k']}" for k, v in real.items())}
     return out
+
+
+def _path_of(inf, name):
+    """Target path the renderer wrote for `name` in an import statement (per name for `import a, b`)."""
+    return (inf.get("paths") or {}).get(name) or inf["path"]
 
 
 def _short(evs):
